@@ -216,6 +216,7 @@ def judge(run, c, r):
 
 def run(run):
     run.mc('MC_Export', f'MC_Export_{run.tier}')
+    run.mc('MC_RoundTrip', f'MC_RoundTrip_{run.tier}')      # regular sources of either sorting, windows: a trace never parts from its header
     cases = plan(run)
     par.G['seed'] = run.seed
     for c, r in zip(cases, par.pmap(_worker, list(enumerate(cases)), chunksize=2)):
